@@ -86,6 +86,15 @@ func selName(cmd command) string {
 	return ""
 }
 
+// capEnabled: the capability was switched on with ENABLE (UNAUTHENTICATE resets
+// all of them, RFC 8437: the client must no longer use e.g. UTF-8 quoting).
+//
+//@ pure
+func capEnabled(c *Client, k imap.Cap) bool {
+	_, ok := c.enabled[k]
+	return ok
+}
+
 // completeCommand performs exactly the state transition of the completed
 // command: none on failure, none for commands that do not change the state.
 //
@@ -94,6 +103,8 @@ func selName(cmd command) string {
 //@   ensures err != nil || !changesState(cmd) ==> c.state == old(c.state) && c.mailbox == old(c.mailbox)
 //@   ensures err == nil && isAuthCmd(cmd) ==> c.state == imap.ConnStateAuthenticated && c.mailbox == nil
 //@   ensures err == nil && isUnauthCmd(cmd) ==> c.state == imap.ConnStateNotAuthenticated && c.mailbox == nil
+//@   props C18:post
+//@   ensures[C18] err == nil && isUnauthCmd(cmd) ==> forall k imap.Cap :: !capEnabled(c, k)
 //@   ensures err == nil && isLogoutCmd(cmd) ==> c.state == imap.ConnStateLogout && c.mailbox == nil
 //@   ensures err == nil && isSelectCmd(cmd) ==> c.state == imap.ConnStateSelected && c.mailbox != nil && c.mailbox.Name == old(selName(cmd))
 
